@@ -14,7 +14,7 @@ ENGINE = {'name': 'router',
  'rule': 'route lists built white-box from scripted matchers (threshold need-k-bytes then Yes/No/error/panic, content test on byte k, '
          'the real MatchNot around them, one or two sets per route, empty = match all) and scripted handlers (terminal, consume-k-then-next, '
          'failing, Wrap-then-next, subroute = Compile with the rest of the chain as next, nested to depth 2), run by the real Server.handle over '
-         'a scripted net.Conn (one script item per Read: chunk / timeout / error, EOF at the end). Exhaustive over <=3 routes x 11 matcher '
+         'a scripted net.Conn (one script item per Read: chunk / timeout / error, EOF at the end). A corpus of hand-written scenarios (one per known way of getting the state machine wrong). Exhaustive over <=3 routes x 12 matcher '
          'shapes x 8 handler chains x 8 arrival schedules of <=3 chunks: every 1- and 2-route configuration, and the 3-route space completely in '
          'thorough / a seed-shifted stride of it in quick, all through the oracle; an evenly spaced slice of them plus random instances '
          '(1..6 routes, nested not, subroutes, scripts with interleaved timeouts/errors) plus configurations around MaxMatchingBytes are emitted '
@@ -26,6 +26,7 @@ ENGINE = {'name': 'router',
  'modelled': ['layer4/routes.go: RouteList.Compile (lastMatchedRouteIdx, lastNeedsMoreIdx, routesStatus, matcherNeedMore, arm/clear of the deadline, all exits)',
               'layer4/matchers.go: MatcherSet.Match, MatcherSets.AnyMatch, MatchNot.Match evaluation order',
               'layer4/handlers.go: middleware chain, forwardNextHandler/lastHandler terminal detection',
+              'layer4/connection.go Wrap at the routing level: the new Connection starts with an empty matching buffer and reads through the old one',
               'layer4/connection.go: prefetch size test and chunking; Read outside matching as far as io.ReadFull of k bytes needs (buffer first, reset when drained)',
               'modules/l4subroute/handler.go: Handle',
               'not modelled: Provision / module loading, SetReadDeadline returning an error, reads that return data together with an error, work done by a handler after next returns'],
